@@ -50,6 +50,7 @@ def run_unit(name, harness, functions=(), timeout_ms=10000, globals_extra=None, 
         for module, qp in functions:
             res.functions.append(frontend.describe(module, qp))
         eng = Engine(name, timeout_ms=timeout_ms, max_paths=max_paths)
+        eng.source_modules = list(dict.fromkeys(m for m, _ in functions))
         eng.globals.update(base_globals())
         if globals_extra:
             eng.globals.update(globals_extra)
